@@ -68,6 +68,21 @@ func (vfs *MemFS) searchNode(path string, slMode slMode) (
 	for pi.Next() {
 		name := pi.Part()
 
+		if parent == volNode {
+			// The root directory is never reached as a child : its lookup permission is checked here.
+			verifYield(&volNode.mu, false)
+			volNode.mu.RLock()
+			ok := volNode.checkPermission(avfs.OpenLookup, vfs.User())
+			volNode.mu.RUnlock()
+
+			if !ok {
+				child = nil
+				err = vfs.err.PermDenied
+
+				return
+			}
+		}
+
 		verifYield(&parent.mu, false)
 		parent.mu.RLock()
 		child = parent.children[name]
